@@ -519,6 +519,8 @@ def run(rep, programs):
     # the counter that is charged belongs to the tree the frame is taken from
     from props import c15
     c15.r_reserve_before_lower(rep, prog)
+    # Online re-installs a tree counter: it has to be the exact count of that very tree, or fast and exact statistics part
+    c15.r_online_flow(rep, prog)
     # drain returns every reservation, also an exhausted one: its tree must lose the reserved flag (validate(), later reservations)
     from props import c10
     c10.r_drain_total(rep, prog)
